@@ -247,3 +247,140 @@ Proof.
   - rewrite E2 by auto. rewrite names_eqb_refl. auto.
   - destruct E1 as [n En]; [auto|]. rewrite En, last_last, names_eqb_refl, removelast_app1. auto.
 Qed.
+
+(* the run that records the events *)
+Lemma log_loop fam f a l0 : forall fuel prev l s h,
+  sinv s -> nested [] h = true -> open_after [] h = pelems (pth s) ->
+  calls s <= (len l0 - len l) + nev h -> len l <= len l0 ->
+  let c := config_loop save_log fuel fam f a prev l s h in
+  c_ret c <> RFault /\
+  (0 <= c_ret c -> nested [] (c_h c) = true) /\
+  calls (c_st c) <= (len l0 - len (c_rest c)) + nev (c_h c) + 1.
+Proof.
+  induction fuel as [|fuel IH]; intros prev l s h SI NE OA CA LL.
+  - cbn. split; [codes; lia|]. split; [codes; lia|lia].
+  - cbn [config_loop].
+    pose proof (next_elem_el fam f a prev l s) as EL.
+    destruct (next_elem fam f a prev l s) as [[ret r] s1].
+    destruct EL as ((SF & LN & EO & _) & (OK & E1 & E2) & SA). destruct (SA SI) as (NF & PI & VB).
+    unfold eofs in EO.
+    destruct (ret <=? 0) eqn:RN.
+    + cbn. split; [codes; lia|]. split; [auto|lia].
+    + apply Z.leb_gt in RN.
+      assert (R5 : ret = 1 \/ ret = 2 \/ ret = 3 \/ ret = 4 \/ ret = 7) by (unfold okret in OK; lia).
+      assert (PR : exists vb, (if negb (Z.land ret PData =? 0) then post_read s1 (valid s1) else Some []) = Some vb).
+      { destruct (negb (Z.land ret PData =? 0)) eqn:HD; [|eexists; reflexivity].
+        assert (ret = 4 \/ ret = 7).
+        { destruct R5 as [->|[->|[->|[->| ->]]]]; cbn in HD; try discriminate; auto. }
+        rewrite post_read_ok; [eexists; reflexivity|]. split; auto. }
+      destruct PR as [vb PRE]. rewrite PRE.
+      unfold save_log at 1.
+      set (ev := mkEv ret prev (pelems (pth s1)) (pfirst (pth s1)) _).
+      assert (CA1 : calls s1 <= (len l0 - len r) + nev (h ++ [ev])) by (rewrite nev_app; lia).
+      assert (LL1 : len r <= len l0) by lia.
+      destruct (negb (Z.land ret PSectEnd =? 0)) eqn:SE.
+      * destruct (path_del (pth s1)) as [d p1] eqn:PD.
+        destruct (path_del_pinv _ _ _ PI PD) as [PI1 PL1].
+        destruct (path_del_elems _ _ _ PD) as [[DN _]|(DP & NE1 & PE1)].
+        -- replace (d <? 0) with true by (symmetry; apply Z.ltb_lt; lia).
+           cbn. split; [codes; lia|]. split; [codes; lia|]. autorewrite with pst. lia.
+        -- replace (d <? 0) with false by (symmetry; apply Z.ltb_ge; lia).
+           destruct (event_nested (pelems (pth s)) ret prev s1 vb) as [EN EA]; auto.
+           { intros ->. rewrite <- E2 by auto. exact NE1. }
+           fold ev in EN, EA. rewrite SE in EA.
+           apply IH; auto.
+           ++ apply sinv_next; auto.
+           ++ rewrite nested_app, NE, OA. exact EN.
+           ++ rewrite open_after_app, OA, EA. cbn [pth]. now rewrite PE1.
+      * destruct (event_nested (pelems (pth s)) ret prev s1 vb) as [EN EA]; auto.
+        { intros ->. cbn in SE. discriminate. }
+        fold ev in EN, EA. rewrite SE in EA.
+        apply IH; auto.
+        -- apply sinv_next; [now apply pinv2_invalidate|now apply plen_invalidate].
+        -- rewrite nested_app, NE, OA. exact EN.
+        -- rewrite open_after_app, OA, EA. cbn [pth]. now rewrite pelems_invalidate.
+Qed.
+
+(* ---------------------------------------------------------------- the property lemmas *)
+Lemma parse_events_total fam f a l :
+  let c := parse_events fam f a l in
+  c_ret c <> ROutOfFuel /\ exists consumed, consumed ++ c_rest c = l.
+Proof.
+  unfold parse_events.
+  destruct (config_loop_ok (list event) save_log fam f a (config_fuel l) PSection l pst_init [] sinv_init
+                           (config_fuel_enough l)) as [A B].
+  split; assumption.
+Qed.
+
+Lemma parse_events_calls fam f a l :
+  let c := parse_events fam f a l in
+  calls (c_st c) <= (len l - len (c_rest c)) + nev (c_h c) + 1.
+Proof.
+  unfold parse_events.
+  assert (I : calls pst_init <= len l - len l + nev []) by (cbn; lia).
+  destruct (log_loop fam f a l (config_fuel l) PSection l pst_init [] sinv_init eq_refl eq_refl I (Z.le_refl _))
+    as (A & B & C).
+  exact C.
+Qed.
+
+Lemma parse_events_nested fam f a l :
+  let c := parse_events fam f a l in 0 <= c_ret c -> nested [] (c_h c) = true.
+Proof.
+  unfold parse_events.
+  assert (I : calls pst_init <= len l - len l + nev []) by (cbn; lia).
+  destruct (log_loop fam f a l (config_fuel l) PSection l pst_init [] sinv_init eq_refl eq_refl I (Z.le_refl _))
+    as (A & B & C).
+  exact B.
+Qed.
+
+Lemma parse_events_no_fault fam f a l : c_ret (parse_events fam f a l) <> RFault.
+Proof.
+  unfold parse_events.
+  assert (I : calls pst_init <= len l - len l + nev []) by (cbn; lia).
+  destruct (log_loop fam f a l (config_fuel l) PSection l pst_init [] sinv_init eq_refl eq_refl I (Z.le_refl _))
+    as (A & B & C).
+  exact A.
+Qed.
+
+Lemma parse_node_total target fmt a l :
+  let n := parse_node target fmt a l in
+  n_ret n <> ROutOfFuel /\ exists consumed, consumed ++ n_rest n = l.
+Proof.
+  unfold parse_node. destruct (parse_format fmt) as [f code].
+  destruct (next_fcn code) as [fam|]; [|cbn; split; [codes; lia|exists []; reflexivity]].
+  destruct (config_loop_ok builder node_append fam f a (config_fuel l) PSection l pst_init builder_init sinv_init
+                           (config_fuel_enough l)) as [A B].
+  destruct (c_ret _ <? 0); cbn; split; assumption.
+Qed.
+
+Lemma parse_node_fail_leaves target fmt a l :
+  n_ret (parse_node target fmt a l) < 0 -> n_tree (parse_node target fmt a l) = target.
+Proof.
+  unfold parse_node. destruct (parse_format fmt) as [f code].
+  destruct (next_fcn code) as [fam|]; [|reflexivity].
+  destruct (c_ret _ <? 0) eqn:E; cbn [n_ret n_tree]; [reflexivity|]. intros H. apply Z.ltb_ge in E. lia.
+Qed.
+
+(* pure grammar view: the depth never drops below zero *)
+Definition abs_events (evs : list event) : list sevent :=
+  flat_map (fun e => match abs_event e with Some x => [x] | None => [] end) evs.
+
+Lemma nested_depth evs : forall st, nested st evs = true -> depth_ok (length st) (abs_events evs) = true.
+Proof.
+  induction evs as [|e evs IH]; intros st N; [reflexivity|].
+  cbn [nested] in N. cbn [abs_events flat_map]. fold (abs_events evs).
+  destruct (abs_event e) as [[n| |n v|v]|]; [| | | |discriminate]; cbn [app depth_ok].
+  - apply andb_true_iff in N. destruct N as [_ N]. specialize (IH _ N).
+    rewrite app_length in IH. cbn in IH. now rewrite Nat.add_1_r in IH.
+  - destruct st as [|x st]; [discriminate|]. apply andb_true_iff in N. destruct N as [_ N].
+    specialize (IH _ N). cbn [length].
+    assert (L : length (removelast (x :: st)) = length st).
+    { clear. revert x. induction st; intros; cbn in *; auto. }
+    now rewrite L in IH.
+  - apply andb_true_iff in N. destruct N as [_ N]. now apply IH.
+  - apply andb_true_iff in N. destruct N as [_ N]. now apply IH.
+Qed.
+
+Lemma parse_events_depth fam f a l :
+  let c := parse_events fam f a l in 0 <= c_ret c -> depth_ok 0 (abs_events (c_h c)) = true.
+Proof. intros c R. apply (nested_depth _ []). now apply parse_events_nested. Qed.
